@@ -84,6 +84,52 @@ def module_constant(relpath, name):
     raise Undecided("module constant %s not found in %s" % (name, relpath))
 
 
+def module_imports(relpath):
+    """names bound by import statements at module level -> True"""
+    _, tree = load_module_ast(relpath)
+    out = set()
+    for st in ast.walk(tree):
+        if isinstance(st, ast.Import):
+            for a in st.names:
+                out.add(a.asname or a.name.split('.')[0])
+        elif isinstance(st, ast.ImportFrom):
+            for a in st.names:
+                out.add(a.asname or a.name)
+    return out
+
+
+def external_names(relpath, node):
+    """dotted names rooted at an imported module/object that the function evaluates"""
+    roots = module_imports(relpath)
+    local = set()
+    for n in ast.walk(node):
+        if isinstance(n, ast.Name) and isinstance(n.ctx, ast.Store):
+            local.add(n.id)
+        elif isinstance(n, ast.arg):
+            local.add(n.arg)
+    out = set()
+
+    def chain(n):
+        parts = []
+        while isinstance(n, ast.Attribute):
+            parts.append(n.attr)
+            n = n.value
+        if isinstance(n, ast.Name) and n.id in roots and n.id not in local:
+            return ".".join([n.id] + parts[::-1])
+        return None
+    seen_inner = set()
+    for n in ast.walk(node):
+        if isinstance(n, ast.Attribute) and id(n) not in seen_inner:
+            c = chain(n)
+            if c:
+                out.add(c)
+            v = n.value
+            while isinstance(v, ast.Attribute):
+                seen_inner.add(id(v))
+                v = v.value
+    return sorted(out)
+
+
 def find_nodes(root, pred):
     return [n for n in ast.walk(root) if pred(n)]
 
@@ -437,6 +483,7 @@ class Session:
             "file": relpath, "qualname": qualname, "mode": mode,
             "lines": [node.lineno, getattr(node, 'end_lineno', node.lineno)],
             "sha256": sha_of(text), "dropped": [], "abstracted": [], "inlined": [],
+            "external_names": external_names(relpath, node),
         })
         return info
 
@@ -669,7 +716,7 @@ class Ctx:
         self.pc.append(e)
 
     def oblige(self, kind, label, goal, expect="valid", meta=None, trig=None, focus=None, timeout_ms=None,
-               nohyps=False):
+               nohyps=False, ring=False):
         """record obligation `<target>.<kind>.<label>`: hyps => goal
 
         trig : expand sin/cos applications (pyvc/trig.py) in hypotheses and goal
@@ -689,6 +736,12 @@ class Ctx:
             from . import trig as _trig
             hyps, g = _trig.normalise(hyps, g)
         meta = dict(meta or {})
+        if ring:
+            from . import ring as _ring
+            g2, nproved = _ring.prove_equalities(g)
+            if nproved:
+                meta['ring_proved_equalities'] = nproved
+                g = g2
         if timeout_ms:
             meta['timeout_ms'] = timeout_ms
         key = (name, tuple(h.get_id() for h in hyps), g.get_id(), expect)
@@ -719,8 +772,9 @@ class LoopSpec:
        `types[name]` in {'int','real','bool', callable}).
     """
 
-    def __init__(self, inv, types=None, havoc=None, decreases=None, label=None):
+    def __init__(self, inv, types=None, havoc=None, decreases=None, label=None, facts=None):
         self.inv = inv
+        self.facts = facts      # facts(ctx, env, k) -> ghost-definition instances assumed at iteration k / exit
         self.types = types or {}
         self.havoc = havoc
         self.decreases = decreases
@@ -1074,6 +1128,9 @@ class Interp:
             # arbitrary iteration k
             k = ctx.fresh_int("k_" + label)
             ctx.assume(And(k >= 0, k < n))
+            if spec.facts:
+                for f in spec.facts(ctx, env, k):
+                    ctx.assume(f)
             for lab, f in spec.inv(ctx, env, k):
                 ctx.assume(f)
             self.assign(st.target, rng.item(k), env)
@@ -1088,6 +1145,9 @@ class Interp:
                 ctx.oblige("inv-preserve", "%s.%s" % (label, lab), f)
             raise PathEnd()
         else:
+            if spec.facts:
+                for f in spec.facts(ctx, env, n):
+                    ctx.assume(f)
             for lab, f in spec.inv(ctx, env, n):
                 ctx.assume(f)
             # python leaves the loop variable at its last value (if any iteration ran)
@@ -1322,6 +1382,10 @@ class Interp:
             if all(isinstance(x, (int, float, str)) for x in args):
                 return a % tuple(args)
             return StrFormat(a, args, {}, percent=True)
+        if name == 'mul' and isinstance(a, list) and isinstance(b, Sym) and b.is_int and len(a) == 1:
+            el = a[0]
+            nn = ite(b > 0, b, 0)
+            return SymList("repeat", nn, lambda j: el)
         if name == 'add' and isinstance(a, str) and not isinstance(b, str):
             return StrFormat("{}{}", [a, b], {})
         if name == 'add' and isinstance(b, str) and not isinstance(a, str):
@@ -1766,6 +1830,68 @@ class SymRange(PyObj):
         if c is None:
             raise Undecided("iteration over symbolic range")
         return c
+
+
+class SymList(PyObj):
+    """python list of symbolic length with append"""
+
+    def __init__(self, name, length, elem):
+        self.name, self.length, self.elem = name, length, elem
+        self.writes = []
+
+    @staticmethod
+    def fresh(ctx, name, sort='real'):
+        n = ctx.fresh_int("len_" + name)
+        ctx.assume(n >= 0)
+        f = z3.Function(ctx._fresh("el_" + name), z3.IntSort(), z3.RealSort() if sort == 'real' else z3.IntSort())
+        return SymList(name, n, lambda j: Sym(f(Sym.lift(j))))
+
+    def at(self, j):
+        v = self.elem(j)
+        for wj, wv in self.writes:
+            c = (j == wj) if isinstance(j, Sym) or isinstance(wj, Sym) else (j == wj)
+            if c is True:
+                v = wv
+            elif c is False:
+                continue
+            else:
+                v = ite(c, wv, v)
+        return v
+
+    def getattr_(self, ctx, name):
+        if name == 'append':
+            def app(c, v):
+                self.writes.append((self.length, v))
+                self.length = self.length + 1
+            return Model(app, 'list.append')
+        raise Undecided("list.%s on symbolic list" % name)
+
+    def len_(self, ctx):
+        return self.length
+
+    def getitem_(self, ctx, k):
+        if isinstance(k, slice):
+            raise Undecided("slice of symbolic list")
+        ctx.oblige("safe", "list_index_in_range.L%d" % ctx.cur_line, And(k >= 0, k < self.length))
+        return self.at(k)
+
+
+def seq_len(v):
+    if isinstance(v, SymList):
+        return v.length
+    return len(v)
+
+
+def seq_at(v, j):
+    """element j (Sym or int) of a python list or SymList, as a term"""
+    if isinstance(v, SymList):
+        return v.at(j)
+    if isinstance(j, int):
+        return v[j]
+    r = None
+    for k in range(len(v) - 1, -1, -1):
+        r = v[k] if r is None else ite(j == k, v[k], r)
+    return r
 
 
 class StrFormat(PyObj):
